@@ -13,13 +13,13 @@ P = {
  "C09": ("other", "typestate on enumerated paths: open->close pairing, deadline-before-read with value shape, reader-goroutine exit, lock pairing", "3 C09"),
  "C10": ("other", "listener handler/consumer/shutdown path enumeration + sibling agreement with GetStatus + aliasing rule for the reused buffer", "3 C10"),
  "C11": ("other", "broadcast helper enumerated over accept/reject patterns of 3 replies + GetDevices result wiring for 0/1/2 replies", "3 C11"),
- "C12": ("other", "per-symbol decision tables of Encode/Decode over the regions cut by the code's constants (one symbol / one byte)", "3 C12"),
+ "C12": ("other", "abstract interpretation of Encode/Decode for one symbol with exact value-set refinement (finite powerset domain: all 256 byte values, all rune regions cut by the code's comparisons); emitted nibble/characters tabulated as expressions of the symbol; no package-level state in the bcd package", "3 C12"),
  "C13": ("other", "zone/layout dataflow lints over every civil construction and parse; local-midnight re-check rule", "3 C13"),
- "C14": ("other", "writer/reader constant agreement, table/bound agreement, nil-map establishment, HH:mm domain regions", "3 C14"),
+ "C14": ("other", "writer/reader constant agreement by context-sensitive constant flow, reader/writer maps compared per value, nil-map establishment and receiver-map dataflow, HH:mm domain regions", "3 C14"),
  "C15": ("other", "port-rule decision tables per role + regular-language inclusion on the constant patterns' automata", "3 C15"),
  "C16": ("proof", "exhaustive evaluation of the comparison functions over the finite sign-vector domain extracted from go/ssa, compared with the lexicographic order", "3 C16"),
  "C17": ("other", "ownership lints: constructor-only writes, fresh allocation in Clone/DeviceList, no stores through arguments, no buffer views in decoded values", "3 C17"),
- "C18": ("other", "per-kind walk of the codec's two reflection loops for one generic field: extents, aliasing, error propagation, tag base, kind symmetry", "3 C18"),
+ "C18": ("other", "per-kind walk of the codec's two reflection loops for one generic field (helpers and dispatch tables inlined): extents, aliasing, error propagation, tag base and tag grammar over all byte literals, kind symmetry, no silently skipped field", "3 C18"),
 }
 TEXT = {
  "C01": "Structural, complete for wiring and layout: for all 32 operations and all argument values at once, which argument or constant reaches which byte offset in which encoding, on every path. Value-level digit correctness of BCD∘time.Format is delegated (C12 decides the digit map).",
